@@ -70,7 +70,10 @@ def main() -> None:
         d = meta.parent
         caught = m.get("check", {}).get("caught")
         other = m.get("caught_by_other_check")
-        if caught:
+        if m.get("neutralised_by_fix"):
+            verdict = f"caught on the tree it was made for; harmless since fix {m['neutralised_by_fix']}"
+            n_caught += 1
+        elif caught:
             verdict = "caught"
             n_caught += 1
         elif other:
